@@ -196,7 +196,6 @@ func (m *Mixed) Next(v *View) forge.BlockSpec {
 	m.drift()
 
 	// --- oracle records
-	isSnapshot := h >= e.V20 && h%144 == 0
 	r := m.rng.Float64()
 	nOPR := 30
 	switch {
@@ -204,9 +203,6 @@ func (m *Mixed) Next(v *View) forge.BlockSpec {
 		nOPR = 0
 	case r < m.O.NoOPRProb+m.O.UngradedProb:
 		nOPR = 3 + m.rng.Intn(6) // fewer than the winner count: block has no rates
-	}
-	if m.O.AvoidKnown && isSnapshot && h < e.V202 && nOPR < 25 {
-		nOPR = 30 // a snapshot height without rates in [2.0, 2.0.2) fails the block (recorded finding)
 	}
 	if m.ForceGraded[h] {
 		nOPR = 30
